@@ -312,3 +312,326 @@ Proof.
   split; [|split; [apply leb_ltb_succ | split; [apply leb_ltb_succ | reflexivity]]].
   f_equal. lia.
 Qed.
+
+(* ------------------------------------------------------------------------------------------ *)
+(* Assignment-level corollaries used by the propagator proofs (Proofs/Props/*.v) *)
+
+Definition uin (w : view) (T : list nat) : Prop := forall x, uvar w = Some x -> In x T.
+Definition uscope (w : view) (n : nat) : Prop := forall x, uvar w = Some x -> (x < n)%nat.
+
+Lemma uin_uvarl : forall w T, incl (uvarl w) T <-> uin w T.
+Proof.
+  intros w T. unfold uin, uvarl. destruct (uvar w) as [x|]; split.
+  - intros H y Hy. inversion Hy; subst. apply H; left; reflexivity.
+  - intros H y [<-|[]]. apply H; reflexivity.
+  - intros _ y; discriminate.
+  - intros _ y [].
+Qed.
+
+Lemma uin_self : forall w, uin w (uvarl w).
+Proof. intros w. apply uin_uvarl. apply incl_refl. Qed.
+
+Lemma uin_incl : forall w T T', uin w T -> incl T T' -> uin w T'.
+Proof. intros w T T' H HI x Hx. apply HI, H, Hx. Qed.
+
+Lemma uscope_of_uin : forall w T n, uin w T -> (forall v, In v T -> (v < n)%nat) -> uscope w n.
+Proof. intros w T n H HT x Hx. apply HT, H, Hx. Qed.
+
+Definition bnd_ok (w : view) (mx : bool) (b : Z) (a : asg) : Prop :=
+  if mx then vsem w a <= b else b <= vsem w a.
+
+Lemma keeps_sem : forall w mx b a x, uvar w = Some x -> (keeps w mx b (a x) = true <-> bnd_ok w mx b a).
+Proof. intros w mx b a x H. unfold keeps, bnd_ok. rewrite (vsem_vfun w a x H). destruct mx; apply Z.leb_le. Qed.
+
+Lemma keeps_sem_const : forall w mx b a v, uvar w = None -> (keeps w mx b v = true <-> bnd_ok w mx b a).
+Proof. intros w mx b a v H. unfold keeps, bnd_ok. rewrite (vsem_const w H a v). destruct mx; apply Z.leb_le. Qed.
+
+Lemma vsem_frame : forall w T a1 a2, uin w T -> (forall v, In v T -> a1 v = a2 v) -> vsem w a1 = vsem w a2.
+Proof.
+  intros w T a1 a2 Hin H. destruct (uvar w) as [x|] eqn:Hu.
+  - rewrite (vsem_vfun w a1 x Hu), (vsem_vfun w a2 x Hu), (H x (Hin x Hu)). reflexivity.
+  - rewrite (vsem_const w Hu a1 0), (vsem_const w Hu a2 0). reflexivity.
+Qed.
+
+(* the view's bounds enclose its value under every assignment inside the domains *)
+Lemma vbnd_bounds : forall w s a, view_ok w -> wf_store s -> inst a s -> uscope w (length s) ->
+  vmin w s <= vsem w a <= vmax w s.
+Proof.
+  intros w s a Hok Hwf Hi Hsc. destruct (uvar w) as [x|] eqn:Hu.
+  - pose proof (Hsc x Hu) as Hx.
+    destruct (view_bounds_exact w s x Hok Hu (Hwf x Hx)) as (H & _).
+    rewrite (vsem_vfun w a x Hu). apply H. apply Hi. exact Hx.
+  - destruct (view_bounds_const w s Hu) as [E1 E2]. rewrite E1, E2, (vsem_const w Hu a 0). lia.
+Qed.
+
+Lemma fixed_inst : forall a s x, inst a s -> dfixed (sget s x) = true ->
+  sget s x = [a x] /\ (x < length s)%nat.
+Proof.
+  intros a s x Hi Hf. apply dfixed_single in Hf. destruct Hf as [z Hz].
+  assert (Hx : (x < length s)%nat) by (apply sget_nonempty_lt; rewrite Hz; discriminate).
+  split; [|exact Hx]. pose proof (Hi x Hx) as Hin. rewrite Hz in Hin.
+  destruct Hin as [E|[]]. rewrite Hz, E. reflexivity.
+Qed.
+
+(* fixed underlying variable (or constant view): both bounds are the value *)
+Lemma vbnd_fixed : forall w s a mx, inst a s ->
+  (forall x, uvar w = Some x -> dfixed (sget s x) = true) -> vbnd w mx s = vsem w a.
+Proof.
+  intros w s a mx Hi Hf. destruct (uvar w) as [x|] eqn:Hu.
+  - destruct (fixed_inst a s x Hi (Hf x eq_refl)) as [Hd _].
+    rewrite (vbnd_vfun w x s Hu), (vsem_vfun w a x Hu), Hd.
+    destruct (Bool.eqb mx (vdir w)); reflexivity.
+  - rewrite (vbnd_const w Hu mx s 0), (vsem_const w Hu a 0). reflexivity.
+Qed.
+
+(* bounds only tighten when the store shrinks *)
+Lemma vbnd_sub : forall w s s', view_ok w -> wf_store s -> wf_store s' -> sub_store s' s ->
+  vmin w s <= vmin w s' /\ vmax w s' <= vmax w s.
+Proof.
+  intros w s s' Hok Hwf Hwf' [HL HS]. destruct (uvar w) as [x|] eqn:Hu.
+  - destruct (Nat.lt_ge_cases x (length s)) as [Hx|Hx].
+    + destruct (view_bounds_exact w s x Hok Hu (Hwf x Hx)) as (Hall & _).
+      assert (Hx' : (x < length s')%nat) by lia.
+      destruct (view_bounds_exact w s' x Hok Hu (Hwf' x Hx')) as (_ & (v1 & I1 & E1) & (v2 & I2 & E2) & _).
+      pose proof (Hall v1 (HS _ _ I1)). pose proof (Hall v2 (HS _ _ I2)). lia.
+    + unfold vmin, vmax. rewrite !(vbnd_vfun w x _ Hu).
+      rewrite (sget_oob s) by lia. rewrite (sget_oob s') by lia. lia.
+  - unfold vmin, vmax. rewrite !(vbnd_const w Hu _ _ 0). lia.
+Qed.
+
+(* a setter on a variable outside the store fails *)
+Lemma vset_oob : forall w x mx b c, view_ok w -> uvar w = Some x -> sget (fst c) x = [] ->
+  vset w mx b c = None.
+Proof.
+  intros w x mx b c Hok Hu He. destruct (vset_reduce w x Hok Hu mx b) as (b' & H1 & _).
+  rewrite H1. destruct (kdir w mx); [apply cset_max_empty | apply cset_min_empty]; exact He.
+Qed.
+
+(* --- soundness of one setter --- *)
+Definition okc (a : asg) (n : nat) (c : ctx) : Prop :=
+  wf_store (fst c) /\ inst a (fst c) /\ length (fst c) = n.
+
+Lemma vset_ok : forall w mx b a n c, view_ok w -> uscope w n -> okc a n c -> bnd_ok w mx b a ->
+  exists c', vset w mx b c = Some c' /\ okc a n c' /\ sub_store (fst c') (fst c).
+Proof.
+  intros w mx b a n [s ev] Hok Hsc (Hwf & Hi & Hl) Hb. cbn [fst] in *.
+  destruct (uvar w) as [x|] eqn:Hu.
+  - assert (Hx : (x < length s)%nat) by (rewrite Hl; apply Hsc; exact Hu).
+    pose proof (Hwf x Hx) as Hd.
+    assert (Hk : In (a x) (filter (keeps w mx b) (sget s x))).
+    { apply filter_In. split; [apply Hi; exact Hx | apply (keeps_sem w mx b a x Hu); exact Hb]. }
+    destruct (vset_spec w x mx b s ev Hok Hu Hd) as [[E _]|[[_ E]|(Hn & _ & E)]].
+    + rewrite E in Hk. destruct Hk.
+    + exists (s, ev). split; [exact E|]. split; [|apply sub_store_refl].
+      split; [exact Hwf|]. split; [exact Hi|exact Hl].
+    + eexists. split; [exact E|]. unfold okc. cbn [fst]. split.
+      * split; [apply wf_store_supd; [exact Hwf|split; [exact Hn | apply filter_sorted; apply Hd]]|].
+        split; [|rewrite supd_length; exact Hl].
+        intros v Hv. rewrite supd_length in Hv. destruct (Nat.eq_dec v x) as [->|N].
+        -- rewrite sget_supd_same by exact Hx. exact Hk.
+        -- rewrite sget_supd_other by exact N. apply Hi; exact Hv.
+      * apply sub_store_supd. intros y Hy. apply filter_In in Hy. tauto.
+  - exists (s, ev). rewrite (vset_const w Hok Hu mx b (s, ev) 0).
+    assert (K : keeps w mx b 0 = true) by (apply (keeps_sem_const w mx b a 0 Hu); exact Hb).
+    rewrite K. split; [reflexivity|]. split; [|apply sub_store_refl].
+    split; [exact Hwf|]. split; [exact Hi|exact Hl].
+Qed.
+
+Lemma vset_sound : forall w mx b a s ev, view_ok w -> wf_store s -> inst a s -> uscope w (length s) ->
+  (mx = false -> b <= vsem w a) -> (mx = true -> vsem w a <= b) ->
+  exists s' ev', vset w mx b (s, ev) = Some (s', ev') /\ inst a s'.
+Proof.
+  intros w mx b a s ev Hok Hwf Hi Hsc H0 H1.
+  assert (Hb : bnd_ok w mx b a) by (unfold bnd_ok; destruct mx; [apply H1|apply H0]; reflexivity).
+  destruct (vset_ok w mx b a (length s) (s, ev) Hok Hsc (conj Hwf (conj Hi eq_refl)) Hb)
+    as ([s' ev'] & E & (_ & Hi' & _) & _).
+  exists s', ev'. split; [exact E|exact Hi'].
+Qed.
+
+(* --- contraction of one setter; chains compose by ctr_trans --- *)
+Definition ctr (T : list nat) (c c' : ctx) : Prop :=
+  sub_store (fst c') (fst c) /\ wf_store (fst c') /\
+  (total_size (fst c') <= total_size (fst c))%nat /\
+  exists evn, snd c' = snd c ++ evn /\
+    (forall v, sget (fst c') v <> sget (fst c) v -> In v evn) /\
+    (forall v, In v evn -> In v T) /\
+    (evn <> [] -> (total_size (fst c') < total_size (fst c))%nat).
+
+Lemma ctr_refl : forall T c, wf_store (fst c) -> ctr T c c.
+Proof.
+  intros T c H. split; [apply sub_store_refl|]. split; [exact H|]. split; [lia|].
+  exists []. split; [rewrite app_nil_r; reflexivity|]. split; [intros v N; congruence|].
+  split; [intros v []|intros N; congruence].
+Qed.
+
+Lemma dom_eq_dec : forall d1 d2 : dom, {d1 = d2} + {d1 <> d2}.
+Proof. apply list_eq_dec. apply Z.eq_dec. Qed.
+
+Lemma ctr_trans : forall T c1 c2 c3, ctr T c1 c2 -> ctr T c2 c3 -> ctr T c1 c3.
+Proof.
+  intros T c1 c2 c3 (S1 & W1 & L1 & e1 & E1 & C1 & T1 & D1) (S2 & W2 & L2 & e2 & E2 & C2 & T2 & D2).
+  split; [eapply sub_store_trans; eassumption|]. split; [exact W2|]. split; [lia|].
+  exists (e1 ++ e2). split; [rewrite E2, E1, app_assoc; reflexivity|]. split; [|split].
+  - intros v N. apply in_or_app.
+    destruct (dom_eq_dec (sget (fst c2) v) (sget (fst c1) v)) as [E|E].
+    + right. apply C2. rewrite E. exact N.
+    + left. apply C1. exact E.
+  - intros v Hv. apply in_app_or in Hv. destruct Hv as [Hv|Hv]; [apply T1|apply T2]; exact Hv.
+  - intros N. destruct e1 as [|z e1].
+    + cbn [app] in N. specialize (D2 N). lia.
+    + assert (Hz : z :: e1 <> []) by discriminate. specialize (D1 Hz). lia.
+Qed.
+
+Lemma ctr_incl : forall T T' c c', incl T T' -> ctr T c c' -> ctr T' c c'.
+Proof.
+  intros T T' c c' HI (S1 & W1 & L1 & e1 & E1 & C1 & T1 & D1).
+  split; [exact S1|]. split; [exact W1|]. split; [exact L1|]. exists e1.
+  split; [exact E1|]. split; [exact C1|]. split; [|exact D1]. intros v Hv. apply HI, T1, Hv.
+Qed.
+
+Lemma ctr_wf : forall T c c', ctr T c c' -> wf_store (fst c').
+Proof. intros T c c' (_ & W & _). exact W. Qed.
+
+Lemma vset_ctr : forall w mx b T c c', view_ok w -> uin w T -> wf_store (fst c) ->
+  vset w mx b c = Some c' -> ctr T c c'.
+Proof.
+  intros w mx b T [s ev] c' Hok Hin Hwf H. cbn [fst] in Hwf.
+  destruct (uvar w) as [x|] eqn:Hu.
+  - destruct (Nat.lt_ge_cases x (length s)) as [Hx|Hx].
+    + pose proof (Hwf x Hx) as Hd.
+      destruct (vset_spec w x mx b s ev Hok Hu Hd) as [[_ E]|[[_ E]|(Hn & Hne & E)]];
+        rewrite E in H; inversion H; subst; clear H.
+      * apply ctr_refl; exact Hwf.
+      * unfold ctr; cbn [fst snd].
+        split; [apply sub_store_supd; intros y Hy; apply filter_In in Hy; tauto|].
+        split; [apply wf_store_supd; [exact Hwf | split; [exact Hn | apply filter_sorted, Hd]]|].
+        pose proof (total_size_supd_filter s x (keeps w mx b) Hx Hne) as Hts.
+        split; [lia|]. exists [x]. split; [reflexivity|]. split; [|split].
+        -- intros v N. destruct (Nat.eq_dec v x) as [->|Nv]; [left; reflexivity|].
+           exfalso. apply N. apply sget_supd_other; exact Nv.
+        -- intros v [<-|[]]. apply Hin. exact Hu.
+        -- intros _. exact Hts.
+    + exfalso. rewrite (vset_oob w x mx b (s, ev) Hok Hu) in H; [discriminate|].
+      apply sget_oob; exact Hx.
+  - rewrite (vset_const w Hok Hu mx b (s, ev) 0) in H.
+    destruct (keeps w mx b 0); [|discriminate]. inversion H; subst. apply ctr_refl; exact Hwf.
+Qed.
+
+(* the requested packaged form *)
+Lemma vset_contracting : forall w mx b s ev s' ev', view_ok w -> wf_store s ->
+  vset w mx b (s, ev) = Some (s', ev') ->
+  sub_store s' s /\ wf_store s' /\ (total_size s' <= total_size s)%nat /\
+  exists evn, ev' = ev ++ evn /\
+    (forall v, sget s' v <> sget s v -> In v evn) /\
+    (forall v, In v evn -> In v (uvarl w)) /\
+    (evn <> [] -> (total_size s' < total_size s)%nat).
+Proof.
+  intros w mx b s ev s' ev' Hok Hwf H.
+  exact (vset_ctr w mx b (uvarl w) (s, ev) (s', ev') Hok (uin_self w) Hwf H).
+Qed.
+
+Lemma contracting_of_ctr : forall p,
+  (forall c c', wf_store (fst c) -> prune p c = Some c' -> ctr (trig p) c c') -> contracting p.
+Proof.
+  intros p H s ev s' ev' Hwf E.
+  destruct (H (s, ev) (s', ev') Hwf E) as (S1 & W1 & _ & evn & E1 & C1 & T1 & D1).
+  cbn [fst snd] in *. split; [exact S1|]. split; [exact W1|]. exists evn.
+  split; [exact E1|]. split; [exact C1|]. split; [exact T1|exact D1].
+Qed.
+
+(* --- checking: on fixed variables a successful setter changes nothing and certifies its bound --- *)
+Lemma vset_fixed : forall w mx b a s ev c', view_ok w -> wf_store s -> inst a s ->
+  (forall x, uvar w = Some x -> dfixed (sget s x) = true) ->
+  vset w mx b (s, ev) = Some c' -> c' = (s, ev) /\ bnd_ok w mx b a.
+Proof.
+  intros w mx b a s ev c' Hok Hwf Hi Hf H. destruct (uvar w) as [x|] eqn:Hu.
+  - destruct (fixed_inst a s x Hi (Hf x eq_refl)) as [Hd Hx].
+    pose proof (Hwf x Hx) as Hwd.
+    destruct (vset_spec w x mx b s ev Hok Hu Hwd) as [[_ E]|[[Ed E]|(Hn & Hne & E)]];
+      rewrite E in H; inversion H; subst; clear H.
+    + split; [reflexivity|]. apply (keeps_sem w mx b a x Hu).
+      rewrite Hd in Ed. cbn [filter] in Ed. destruct (keeps w mx b (a x)); [reflexivity|discriminate].
+    + exfalso. rewrite Hd in Hn, Hne. cbn [filter] in Hn, Hne.
+      destruct (keeps w mx b (a x)); congruence.
+  - rewrite (vset_const w Hok Hu mx b (s, ev) 0) in H.
+    destruct (keeps w mx b 0) eqn:K; [|discriminate]. inversion H; subst.
+    split; [reflexivity|]. apply (keeps_sem_const w mx b a 0 Hu). exact K.
+Qed.
+
+(* --- frame: bounds and setters read and write only the underlying variable --- *)
+Definition agr (T : list nat) (c1 c2 : ctx) : Prop :=
+  length (fst c1) = length (fst c2) /\ agree_on T (fst c1) (fst c2) /\ snd c1 = snd c2.
+Definition orel {A} (R : A -> A -> Prop) (o1 o2 : option A) : Prop :=
+  match o1, o2 with Some a, Some b => R a b | None, None => True | _, _ => False end.
+
+Lemma obind_orel : forall {A B} (R : A -> A -> Prop) (R' : B -> B -> Prop) o1 o2 f g,
+  orel R o1 o2 -> (forall a b, R a b -> orel R' (f a) (g b)) -> orel R' (obind o1 f) (obind o2 g).
+Proof.
+  intros A B R R' [a|] [b|] f g H Hf; cbn in *; try contradiction; [apply Hf; exact H | exact I].
+Qed.
+
+Lemma vbnd_frame : forall w T s1 s2, uin w T -> agree_on T s1 s2 ->
+  forall mx, vbnd w mx s1 = vbnd w mx s2.
+Proof.
+  induction w as [v|c|w IH|w IH c|w IH k|w IH|w IH]; intros T s1 s2 Hin Ha mx; cbn [vbnd];
+    try reflexivity; try (rewrite (IH T s1 s2 Hin Ha); reflexivity).
+  rewrite (Ha v); [reflexivity|apply Hin; reflexivity].
+Qed.
+
+Lemma agr_supd : forall T s1 s2 e1 e2 v d, agr T (s1, e1) (s2, e2) ->
+  agr T (supd s1 v d, e1 ++ [v]) (supd s2 v d, e2 ++ [v]).
+Proof.
+  intros T s1 s2 e1 e2 v d (HL & HA & HE). cbn [fst snd] in *.
+  unfold agr; cbn [fst snd]. split; [rewrite !supd_length; exact HL|]. split; [|rewrite HE; reflexivity].
+  intros u Hu. destruct (Nat.eq_dec u v) as [->|N].
+  - destruct (Nat.lt_ge_cases v (length s1)) as [L|L].
+    + rewrite !sget_supd_same by lia. reflexivity.
+    + rewrite !sget_oob by (rewrite supd_length; lia). reflexivity.
+  - rewrite !sget_supd_other by exact N. apply HA; exact Hu.
+Qed.
+
+Lemma cset_min_frame : forall T v b c1 c2, In v T -> agr T c1 c2 ->
+  orel (agr T) (cset_min v b c1) (cset_min v b c2).
+Proof.
+  intros T v b [s1 e1] [s2 e2] Hv Ha. pose proof Ha as (HL & HA & HE). cbn [fst snd] in *.
+  unfold cset_min. cbn [fst snd]. rewrite <- (HA v Hv).
+  destruct (dempty (sget s1 v)); [exact I|].
+  destruct (dmax (sget s1 v) <? b); [exact I|].
+  destruct (dmin (sget s1 v) <? b); [|exact Ha].
+  destruct (dempty (dbelow b (sget s1 v))); [exact I|].
+  cbn [orel]. apply agr_supd. exact Ha.
+Qed.
+
+Lemma cset_max_frame : forall T v b c1 c2, In v T -> agr T c1 c2 ->
+  orel (agr T) (cset_max v b c1) (cset_max v b c2).
+Proof.
+  intros T v b [s1 e1] [s2 e2] Hv Ha. pose proof Ha as (HL & HA & HE). cbn [fst snd] in *.
+  unfold cset_max. cbn [fst snd]. rewrite <- (HA v Hv).
+  destruct (dempty (sget s1 v)); [exact I|].
+  destruct (b <? dmin (sget s1 v)); [exact I|].
+  destruct (b <? dmax (sget s1 v)); [|exact Ha].
+  destruct (dempty (dabove b (sget s1 v))); [exact I|].
+  cbn [orel]. apply agr_supd. exact Ha.
+Qed.
+
+Lemma vset_frame : forall w T, uin w T -> forall mx b c1 c2, agr T c1 c2 ->
+  orel (agr T) (vset w mx b c1) (vset w mx b c2).
+Proof.
+  induction w as [v|c|w IH|w IH c|w IH k|w IH|w IH]; intros T Hin mx b c1 c2 Ha; cbn [vset];
+    try (apply IH; assumption).
+  - destruct mx; [apply cset_max_frame | apply cset_min_frame]; try exact Ha; apply Hin; reflexivity.
+  - destruct mx; [destruct (c <=? b) | destruct (b <=? c)]; cbn [orel]; (exact Ha || exact I).
+  - destruct mx; apply IH; assumption.
+Qed.
+
+Lemma frame_of_agr : forall p,
+  (forall c1 c2, agr (trig p) c1 c2 -> orel (agr (trig p)) (prune p c1) (prune p c2)) ->
+  (forall a1 a2, (forall v, In v (trig p) -> a1 v = a2 v) -> sat p a1 = sat p a2) -> frame p.
+Proof.
+  intros p H1 H2. split; [|exact H2]. intros s1 s2 ev HL HA.
+  assert (Ha : agr (trig p) (s1, ev) (s2, ev)) by (split; [exact HL|split; [exact HA|reflexivity]]).
+  specialize (H1 _ _ Ha).
+  destruct (prune p (s1, ev)) as [[s1' e1]|]; destruct (prune p (s2, ev)) as [[s2' e2]|];
+    cbn [orel] in H1; try exact H1.
+  destruct H1 as (_ & A & E). cbn [fst snd] in *. split; [exact E|exact A].
+Qed.
